@@ -13404,3 +13404,225 @@ func ruleRootComparedBeforeStore(c *Ctx) {
 		c.Fail("root-compared-before-store", c.P.Pos(writes[0].call.Pos()), "AddStateRoot can write the root record / the validated height without having compared the received root with the one the node computed ("+strings.Join(path, " -> ")+"): a correctly signed root that differs from the local one replaces it, and getstateroot, getstate, findstates, getproof and historic invocations of that height name a trie that does not hold the storage of that height")
 	}
 }
+
+// ruleManifestOfContextUnconditional (C16): since Domovoi the permissions a call is checked against are those of the
+// manifest the running context was loaded with (ctx.GetManifest()) - it is there whatever has happened to the stored
+// contract in the meantime (a contract that destroyed itself earlier in the invocation has no stored state any more).
+// In callInternal the statement that takes the context's manifest does not stand under a condition that mentions the
+// outcome of a GetContract lookup.
+func ruleManifestOfContextUnconditional(c *Ctx) {
+	fd := c.P.Func("pkg/core/interop/contract", "", "callInternal")
+	if fd == nil {
+		c.Lost("manifest-of-context-unconditional.anchor", "contract.callInternal not found")
+		return
+	}
+	info := fd.Pkg.TypesInfo
+	lookup := map[types.Object]bool{}
+	ast.Inspect(fd.Decl.Body, func(x ast.Node) bool {
+		as, ok := x.(*ast.AssignStmt)
+		if !ok || len(as.Rhs) != 1 {
+			return true
+		}
+		call, ok := ast.Unparen(as.Rhs[0]).(*ast.CallExpr)
+		if !ok {
+			return true
+		}
+		if se, ok := ast.Unparen(call.Fun).(*ast.SelectorExpr); ok && se.Sel.Name == "GetContract" {
+			for _, l := range as.Lhs {
+				if id, ok := l.(*ast.Ident); ok && id.Name != "_" {
+					lookup[info.ObjectOf(id)] = true
+				}
+			}
+		}
+		return true
+	})
+	n := 0
+	var stack []ast.Node
+	ast.Inspect(fd.Decl.Body, func(x ast.Node) bool {
+		if x == nil {
+			stack = stack[:len(stack)-1]
+			return true
+		}
+		stack = append(stack, x)
+		call, ok := x.(*ast.CallExpr)
+		if !ok {
+			return true
+		}
+		se, ok := ast.Unparen(call.Fun).(*ast.SelectorExpr)
+		if !ok || se.Sel.Name != "GetManifest" {
+			return true
+		}
+		n++
+		var under ast.Expr
+		for i := len(stack) - 2; i >= 0; i-- {
+			is, ok := stack[i].(*ast.IfStmt)
+			if !ok || stack[i+1] == ast.Node(is.Cond) || (is.Init != nil && stack[i+1] == ast.Node(is.Init)) {
+				continue
+			}
+			ast.Inspect(is.Cond, func(y ast.Node) bool {
+				if id, ok := y.(*ast.Ident); ok && lookup[info.ObjectOf(id)] {
+					under = is.Cond
+				}
+				return true
+			})
+		}
+		if under == nil {
+			c.OK("manifest-of-context-unconditional", c.P.Pos(call.Pos()), "the context's manifest is taken whatever a lookup of the stored contract says")
+		} else {
+			c.Fail("manifest-of-context-unconditional", c.P.Pos(call.Pos()), fmt.Sprintf("callInternal takes the running context's manifest only under `%s`, the outcome of a lookup of the stored contract: a contract that destroyed itself earlier in the invocation is not found, the manifest stays nil and the permission check is skipped - it calls any method of any contract", types.ExprString(under)))
+		}
+		return true
+	})
+	c.Floor("manifest-of-context-unconditional.sites", n, 1)
+}
+
+// ruleTokenFlagsRequested (C16): a method token carries the call flags its call is to be made with; the callee runs
+// with the intersection of those and the caller's. The flags LoadToken hands to callInternal are the token's CallFlag
+// field (through locals and and-ing at most), not the caller's own flags.
+func ruleTokenFlagsRequested(c *Ctx) {
+	fd := c.P.Func("pkg/core/interop/contract", "", "LoadToken")
+	if fd == nil {
+		c.Lost("token-flags-requested.anchor", "contract.LoadToken not found")
+		return
+	}
+	info := fd.Pkg.TypesInfo
+	n := 0
+	ast.Inspect(fd.Decl.Body, func(x ast.Node) bool {
+		call, ok := x.(*ast.CallExpr)
+		if !ok {
+			return true
+		}
+		fn := calleeFunc(info, call)
+		if fn == nil || fn.Name() != "callInternal" {
+			return true
+		}
+		sig := fn.Type().(*types.Signature)
+		for i := 0; i < sig.Params().Len() && i < len(call.Args); i++ {
+			if !namedTypeIs(sig.Params().At(i).Type(), "pkg/smartcontract/callflag", "CallFlag") {
+				continue
+			}
+			n++
+			arg := resolveLocalOnce(info, fd.Decl.Body, call.Args[i])
+			mentions := false
+			ast.Inspect(arg, func(y ast.Node) bool {
+				if se, ok := y.(*ast.SelectorExpr); ok && se.Sel.Name == "CallFlag" {
+					if v, ok := info.ObjectOf(se.Sel).(*types.Var); ok && v.IsField() {
+						mentions = true
+					}
+				}
+				return true
+			})
+			if mentions {
+				c.OK("token-flags-requested", c.P.Pos(call.Pos()), "the call is made with the flags the method token requests")
+			} else {
+				c.Fail("token-flags-requested", c.P.Pos(call.Pos()), fmt.Sprintf("LoadToken hands `%s` to callInternal as the flags of the call, which does not mention the token's CallFlag: a callee reached through a ReadStates token runs with everything the caller has and can write storage and notify", types.ExprString(arg)))
+			}
+		}
+		return true
+	})
+	c.Floor("token-flags-requested.calls", n, 1)
+}
+
+// ruleTrieValueOwned (C10, C03): the value a leaf holds is the trie's; its cached bytes and hash are computed from it
+// once. What an exported function of package mpt returns of a leaf's value is a copy: a caller that writes into the
+// result of Get would otherwise change what later reads of a long-lived trie (TrieStore, the state module's) return,
+// while the root hash and every proof keep saying the old value.
+func ruleTrieValueOwned(c *Ctx) {
+	pk := c.P.Pkg("pkg/core/mpt")
+	if pk == nil {
+		c.Lost("trie-value-owned.anchor", "package mpt not found")
+		return
+	}
+	info := pk.TypesInfo
+	n := 0
+	for _, fd := range c.P.AllFuncDecls() {
+		if fd.Pkg != pk || fd.Decl.Body == nil || !fd.Decl.Name.IsExported() {
+			continue
+		}
+		inspectNoLit(fd.Decl.Body, func(x ast.Node) bool {
+			rs, ok := x.(*ast.ReturnStmt)
+			if !ok {
+				return true
+			}
+			for _, r := range rs.Results {
+				e := ast.Unparen(resolveLocalOnce(info, fd.Decl.Body, r))
+				se, ok := e.(*ast.SelectorExpr)
+				if !ok || se.Sel.Name != "value" {
+					// a copy of the value counts as a site too
+					if call, ok := e.(*ast.CallExpr); ok && len(call.Args) == 1 {
+						if a, ok := ast.Unparen(call.Args[0]).(*ast.SelectorExpr); ok && a.Sel.Name == "value" && namedTypeIs(info.TypeOf(a.X), "pkg/core/mpt", "LeafNode") {
+							n++
+							c.OK(fmt.Sprintf("trie-value-owned:%s", shortSym(FuncKey(fd.Obj))), c.P.Pos(rs.Pos()), "the leaf's value is returned as a copy")
+						}
+					}
+					continue
+				}
+				if !namedTypeIs(info.TypeOf(se.X), "pkg/core/mpt", "LeafNode") {
+					continue
+				}
+				n++
+				c.Fail(fmt.Sprintf("trie-value-owned:%s", shortSym(FuncKey(fd.Obj))), c.P.Pos(rs.Pos()), fmt.Sprintf("%s returns the value slice of a leaf of the trie itself: a caller that writes into the result changes what later reads of the same trie return (TrieStore and the state module keep one trie alive), while the leaf's cached bytes, the root hash and every proof keep the old value", FuncKey(fd.Obj)))
+			}
+			return true
+		})
+	}
+	c.Floor("trie-value-owned.returns of a leaf value", n, 2)
+}
+
+// ruleReleaseAfterDescent (C10, C11): Delete gives the reference of the node it passes back only once the descent
+// below it has succeeded - a descent that fails (a node missing from the store) returns an error with the root
+// unchanged, and a -1 left in the counter map would make the next Flush delete a record the unchanged root still
+// needs. In every deleteFrom* function of the trie, each removeRef of the function's own node lies behind the
+// recursive deleteFromNode call on every path.
+func ruleReleaseAfterDescent(c *Ctx) {
+	n := 0
+	for _, fd := range c.P.AllFuncDecls() {
+		if pkgRel(fd.Pkg.Types) != "pkg/core/mpt" || fd.Decl.Body == nil || fd.Decl.Recv == nil || !strings.HasPrefix(fd.Decl.Name.Name, "deleteFrom") {
+			continue
+		}
+		info := fd.Pkg.TypesInfo
+		f := c.P.NewFuncCFG(fd)
+		descents := f.CallSites("pkg/core/mpt.(*Trie).deleteFromNode")
+		if len(descents) == 0 {
+			continue
+		}
+		// the node parameter
+		var node types.Object
+		for _, fl := range fd.Decl.Type.Params.List {
+			for _, nm := range fl.Names {
+				if _, ok := info.TypeOf(nm).(*types.Pointer); ok {
+					node = info.ObjectOf(nm)
+				}
+			}
+		}
+		if node == nil {
+			continue
+		}
+		var own []site
+		for _, s := range f.CallSites("pkg/core/mpt.(*Trie).removeRef") {
+			if len(s.call.Args) == 0 {
+				continue
+			}
+			a := ast.Unparen(resolveLocalOnce(info, fd.Decl.Body, s.call.Args[0]))
+			if hc, ok := a.(*ast.CallExpr); ok {
+				if se, ok := ast.Unparen(hc.Fun).(*ast.SelectorExpr); ok && se.Sel.Name == "Hash" {
+					if id, ok := ast.Unparen(se.X).(*ast.Ident); ok && info.ObjectOf(id) == node {
+						own = append(own, s)
+					}
+				}
+			}
+		}
+		if len(own) == 0 {
+			continue
+		}
+		n++
+		key := "release-after-descent:" + shortSym(FuncKey(fd.Obj))
+		ok, path := f.mustBefore(f.Entry(), own, descents, nil)
+		if ok {
+			c.OK(key, c.P.Pos(own[0].call.Pos()), "the node's reference is given back only after the descent below it succeeded")
+		} else {
+			c.Fail(key, c.P.Pos(own[0].call.Pos()), shortSym(FuncKey(fd.Obj))+" gives the reference of the node it passes back before the descent below it ("+strings.Join(path, " -> ")+"): when the descent fails (a node below is not in the store) Delete returns an error with the root unchanged, the -1 stays in the counter map, and the next Flush in a counting mode deletes the record of a node the root still needs - after a reload every key under it is gone")
+		}
+	}
+	c.Floor("release-after-descent.functions", n, 2)
+}
